@@ -46,6 +46,7 @@ FIXED = [
  ("C14", "e3ab9e1", "C14/geff/raised/AttributeError", "undoing the update of a new attribute stored an explicit None, on which export_to_geff crashes"),
  ("C14", "2140c11", "C14/csv-display/raised/AttributeError", "CSV import crashed (AttributeError in geff_spec) on a property column whose first cell is empty"),
  ("C11", "754c0d9", "C11/changed/UserAddNode/ValueError/(AddNode)", "with 3-D ellipse_axis_radii enabled, adding or painting a flat/collinear mask raised ValueError 'math domain error' from inside the regionprops annotator (sqrt of a rounding-negative moment) after the primitive had already written node, pixels and attributes; the refused UserAddNode / UserUpdateSegmentation left them behind"),
+ ("C05", "c3095d7", "C05/partition/UserAddNode/(DeleteEdge,AddNode,AddEdge,AddEdge)", "UserAddNode wrote the lineage id it determined into the caller's attributes dict; a caller re-using the dict for the next node passed that lineage id to an unconnected node (two components, one lineage id); the same aliasing made undo of later edits inexact"),
  ("C14", "e1e7d61", "C14/csv-display/feature/tag", "CSV round trip of a registered text feature: nodes without a value came back with the string 'nan' (empty cells of a pandas string-dtype column were not recognised as missing)"),
 ]
 
